@@ -42,6 +42,7 @@ def run_U(chk, prefixes, rule1="U1", rule2="U2", floor1=40, floor2=10):
     prog = chk.prog
     run_U4(chk, prefixes, floor=max(1, floor1))
     run_U5(chk, prefixes)
+    run_U6(chk, prefixes)
     chk.rule(rule1, "every parameter is read by the function that declares it (nothing the caller supplies is silently ignored)", floor=floor1)
     chk.rule(rule2, "every name bound by unpacking a tuple is read", floor=floor2)
     for f in prog.all_funcs():
@@ -183,6 +184,81 @@ def run_U4(chk, prefixes, floor=20):
             chk.bad("U4", (f, c), f"{f.short}: {A.short(c, 60)}",
                     f"{f.short}(): `{A.short(c, 70)}` passes the caller's `{q}` for {cname}()'s parameter `{p}` and its `{p}` for `{q}`: the two "
                     f"arguments are exchanged (for a sesquilinear / non-commutative callee the result is the conjugate / transposed one)")
+
+
+# ------------------------------------------------------------------ U6 mutable defaults that are written
+U6_MUTATORS = {"append", "extend", "insert", "update", "setdefault", "pop", "popitem", "clear", "add", "discard", "remove", "sort", "reverse"}
+
+
+def _mutable_default_writes(fn):
+    """[(parameter, default node, first writing node)] for parameters whose default is a mutable display (`[]`, `{}`, `set()`, ...) and
+    which the function writes in place: the default object is created once, so whatever one call stores is seen by the next call that
+    relies on the default (state shared between unrelated calls)."""
+    a = fn.args
+    pos = a.posonlyargs + a.args
+    pairs = list(zip([x.arg for x in pos[len(pos) - len(a.defaults):]], a.defaults)) + \
+        [(x.arg, d) for x, d in zip(a.kwonlyargs, a.kw_defaults) if d is not None]
+    out = []
+    for p_, d in pairs:
+        mutable = isinstance(d, (ast.List, ast.Dict, ast.Set, ast.ListComp, ast.DictComp, ast.SetComp)) or \
+            (isinstance(d, ast.Call) and (A.call_name(d) or "") in ("list", "dict", "set", "defaultdict", "collections.defaultdict", "OrderedDict"))
+        if not mutable:
+            continue
+        # the parameter is rebound to a fresh object before any write? (`H = dict(H)`): then later writes do not reach the default
+        rebinds = [n for n in ast.walk(fn) if isinstance(n, ast.Assign) and any(isinstance(t, ast.Name) and t.id == p_ for t in n.targets)]
+        cfg = None
+        par = None
+        for n in ast.walk(fn):
+            w = None
+            if isinstance(n, (ast.Subscript, ast.Attribute)) and isinstance(n.ctx, (ast.Store, ast.Del)) and isinstance(n.value, ast.Name) and n.value.id == p_:
+                w = n
+            elif isinstance(n, ast.Call) and isinstance(n.func, ast.Attribute) and isinstance(n.func.value, ast.Name) and n.func.value.id == p_ \
+                    and n.func.attr in U6_MUTATORS:
+                w = n
+            elif isinstance(n, ast.AugAssign) and isinstance(n.target, ast.Name) and n.target.id == p_:
+                w = n
+            if w is not None:
+                reaches = True
+                if rebinds:
+                    # the write reaches the default object unless every path from the entry passes a rebinding of the parameter first
+                    from ..core.cfg import CFG
+                    cfg = cfg or CFG(fn)
+                    par = par or A.enclosing_map(fn)
+                    st = A.stmt_of(w, par)
+                    rb = [r for r in rebinds if r in cfg.node_of]
+                    if st in cfg.node_of and rb:
+                        reaches = not cfg.must_pass([st], rb)
+                if reaches:
+                    out.append((p_, d, w))
+                    break
+    return out
+
+
+_U6_FIXTURE = """
+def expand(v, H={}):
+    H[(0, 0)] = v
+    return H
+"""
+
+
+def run_U6(chk, prefixes, rule="U6"):
+    prog = chk.prog
+    chk.rule(rule, "no function writes into a parameter whose default is a mutable object created once (state shared between calls)", floor=0)
+    fx = [n for n in ast.parse(_U6_FIXTURE).body if isinstance(n, ast.FunctionDef)][0]
+    if [x[0] for x in _mutable_default_writes(fx)] != ["H"]:
+        raise AnalysisError("U6: the built-in positive fixture is not recognised (rule broken)")
+    for f in prog.all_funcs():
+        if not f.module.name.startswith(tuple(prefixes)) or "torch" in f.module.name:
+            continue
+        if not (f.node.args.defaults or f.node.args.kw_defaults):
+            continue
+        hits = _mutable_default_writes(f.node)
+        for p_, d, w in hits:
+            chk.bad(rule, (f, w), f"{f.short}({p_}={A.text(d)})", f"{f.short}(): the parameter `{p_}` defaults to the mutable object `{A.text(d)}`, created once when the "
+                    f"function is defined, and the function writes into it (`{A.short(w, 50)}`): every call that relies on the default shares one object, so "
+                    f"entries stored by an earlier, unrelated call are still there (e.g. stale Hessenberg entries of a previous Krylov run)")
+        if not hits:
+            chk.ok(rule, f, f"{f.short}: defaults are not written", sample=False)
 
 
 # ------------------------------------------------------------------ U5 option-resolving self-delegation
